@@ -73,7 +73,9 @@ Definition interpret_env_ok (F : facts) (T : tables) (E : env) (l : loaded) : bo
   | None => true
   end.
 
-(* ---- what a run needs beyond acceptance.  After the series C19-3 .. C19-13 nothing about the CONFIGURATION is left: the model type,
+(* ---- what a run needs beyond acceptance.  After the series C19-3 .. C19-13 and C19c-1 .. C19c-5 two things about the CONFIGURATION
+        are left, both listed findings: a dumb model's InitialObjectiveValue within math.RoundFloat's range, and a scenario name short
+        enough for a file name.  Everything else -- the model type,
         the decision variable, the data source class, a binding limit, the output type, the run counts are all checked by the loader /
         interpreter (derived in ConfigProofs.accepted_shape).  What remains is about the ENVIRONMENT at run time and about the
         unverified derivation of the model's constants from the data files. ---- *)
@@ -91,6 +93,12 @@ Definition run_preconditions (E : env) (sc : scenario) : bool :=
   | _, _ => true
   end
   && e_out_usable E (s_out_path sc)                                  (* run-time environment: the saver can create its directory and files *)
+  && forallb (fun r => e_file_creatable E (summary_name sc r)) (seq 1 (Z.to_nat (s_runs sc)))
+                                                                     (* run-time environment: ... under the names the scenario name gives them
+                                                                        (listed finding: an over-long name is accepted, the encoder's error is
+                                                                        only logged and the run ends without a result) *)
+  && match s_mkind sc with MKDumb => dumb_round_ok (s_model_params sc) | _ => true end
+                                                                     (* listed finding: InitialObjectiveValue beyond math.RoundFloat's range *)
   && ((s_profile sc =? "") || e_profile_ok E (s_profile sc))         (* run-time environment: the profile file can be created *)
   && no_nl (s_name sc).                                              (* side condition of C12's naming lemma, not a defect *)
 
